@@ -26,8 +26,12 @@ from pyvc import conc, smt, spec as S, symexec  # noqa: E402
 
 class Plan:
     def __init__(self, pid, level, functions=(), lemmas=(), bounded=(), explanation="", trusted=(), assumptions=(),
-                 extra=(), consts=None):
+                 extra=(), consts=None, alternatives=()):
         self.pid, self.level = pid, level
+        # pairs (group A, group B) of contract names: two independent arguments for the same clause.  The clause holds if
+        # every obligation of ONE group is discharged; the failures of the other group are then "not needed" (a redundant
+        # safeguard was removed, the property still holds).  If both groups have failures, all of them are reported.
+        self.alternatives = [(list(a), list(b)) for a, b in alternatives]
         self.consts = consts
         self.functions = list(functions)
         self.lemmas = list(lemmas)
@@ -278,6 +282,17 @@ def run_property(plan: Plan, tier: str, seed: int, contracts_mod_names, replay=N
         o.result, o.backend, o.time, o.model, o.reason = "not-posed", "-", 0.0, "", ""
     smt.discharge(todo, lambda o: o.eng.facts[:o.nfacts], timeout_s=timeout, seed=seed if tier == "thorough" else 0)
     solver_wall = time.time() - t_s
+    for grp_a, grp_b in plan.alternatives:
+        def _bad(grp):
+            return [o for o in todo if o.fn in grp and o.kind not in ("cover", "must_fail") and o.result in ("refuted", "undecided")]
+        def _all_there(grp):
+            return all(q in engines for q in grp)
+        for good, other in ((grp_a, grp_b), (grp_b, grp_a)):
+            if _all_there(good) and not _bad(good) and _bad(other):
+                for o in _bad(other):
+                    print(f"note: {o.name} does not hold, but is not needed: the clause is carried by {', '.join(good)} alone")
+                    o.result, o.reason = "not-needed", f"alternative argument {good} discharged"
+                break
     everything = all_obls + extra_results
     mine = [o for o in everything if pid in o.props or o.kind in ("cover", "must_fail")]
     proved = [o for o in mine if o.result == "proved"]
@@ -410,7 +425,7 @@ def run_property(plan: Plan, tier: str, seed: int, contracts_mod_names, replay=N
     for ln in out_lines:
         print(ln)
     # --- evidence
-    n_obl = len([o for o in mine if o.expect == "unsat"])
+    n_obl = len([o for o in mine if o.expect == "unsat" and o.result != "not-needed"])
     n_dis = len([o for o in mine if o.expect == "unsat" and o.result == "proved"])
     backends = {}
     for o in mine:
@@ -457,6 +472,7 @@ def run_property(plan: Plan, tier: str, seed: int, contracts_mod_names, replay=N
         "slowest_obligations": [{"obligation": o.name, "seconds": round(o.time, 2), "backend": o.backend}
                                 for o in sorted([x for x in mine if getattr(x, "time", 0)], key=lambda x: -x.time)[:3]],
         "refuted": [o.name for o in refuted], "undecided": [o.name for o in undec],
+        "not_needed": [f"{o.name}: {o.reason}" for o in everything if o.result == "not-needed"],
         "other_property_obligations_failing": [o.name for o in others_bad],
         "cover_checks": {o.name: o.result for o in everything if o.kind == "cover"},
         "must_fail_probes": {f"{k[0]}:{k[1]}": ("ok" if ok else "DEAD") for k, ok in probes.items()},
